@@ -265,8 +265,8 @@ async fn tcp_h2(req_limit: u32, resp_limit: u32, msg: &[u8], v: HttpVariant, log
 		HttpVariant::ThreeFramesCl => (FramesBody::new(three()), true),
 		HttpVariant::OneFrameNoCl => (FramesBody::unsized_frames(vec![msg.to_vec()]), false),
 		HttpVariant::ThreeFrames => (FramesBody::unsized_frames(three()), false),
-		// at most 64 DATA frames: hyper's HTTP/2 server tears the connection down when a peer keeps sending hundreds of
-		// frames on a stream the server has already reset (its flood protection), and the answer is then lost to the client
+		// at most 64 DATA frames: with thousands of 16-byte frames behind the server's early refusal the hyper client reports
+		// BrokenPipe before it has read the answer (presumably the h2 layer's protection against frames on a reset stream)
 		HttpVariant::SmallFrames => (FramesBody::unsized_frames(msg.chunks(16.max(n / 64)).map(|c| c.to_vec()).collect()), false),
 		HttpVariant::LyingSmallCl => return Err("not expressible over HTTP/2".into()),
 	};
